@@ -9,7 +9,7 @@ from .model import Model
 
 DELIMS = (None, ",", ";", "\t", "|")          # None = library default (' ' on write, any whitespace on read)
 ENCODINGS = ("utf-8", "latin-1", "cp1252")
-TARGETS = ("path.txt", "path.gz", "path.bz2", "fileobj", "bytesio")
+TARGETS = ("path.txt", "path.gz", "path.bz2", "path.gzip", "fileobj", "bytesio")
 
 
 def tmpdir():
@@ -18,7 +18,7 @@ def tmpdir():
 
 
 def opener(path):
-    if path.endswith(".gz"):
+    if path.endswith(".gz") or path.endswith(".gzip"):
         return gzip.open(path, "rb")
     if path.endswith(".bz2"):
         return bz2.BZ2File(path, "rb")
